@@ -4,6 +4,8 @@ from .. import common as C
 from .. import rpu as R
 from .. import cli
 from .. import streamgen as S
+from .. import rpucases as RC
+from .. import rpugen as G
 from . import c09
 
 ASSETS = os.path.join(C.REPO, "assets")
@@ -72,6 +74,24 @@ def run(res):
         jobs.append(("generate -j " + f, "genjson", f))
     for cmd in ("convert", "demux", "extract-rpu", "remove", "mux", "inject-rpu", "info", "export"):
         jobs.append((cmd, cmd, None))
+    # a list with several distinct L5 / L6 / L2 values: every "distinct values" collection of export
+    # and of the summary has more than one element to order
+    from . import c16 as C16
+    vr = C.rng(res.seed, "c17-varied")
+    vraws = []
+    keys = [(0, 0, 276, 276), (0, 0, 0, 0), (240, 240, 0, 0), (10, 20, 30, 40), (7, 7, 7, 7)]
+    for t, raw, m in RC.valid_trees(res.seed, 60, "c17v", profile=8):
+        if t.get("vdr_dm_data") is None:
+            continue
+        C16.set_l5(t, keys[len(vraws) % len(keys)])
+        x = G.encode(t).rstrip(b"\x00")
+        if x[:3] == bytes([0x19, 8, 9]) and C.dvh().run(["parseclass rpu " + (RC.SC4 + x).hex()])[0] == "ok":
+            vraws.append(x)
+        if len(vraws) >= 15:
+            break
+    varied = w.write("varied.bin", b"".join(b"\x00\x00\x00\x01" + R.escape(x) for x in vraws))
+    jobs.append(("export (list with %d distinct L5 presets)" % len(keys), "export-varied", varied))
+    jobs.append(("info --summary (varied list)", "summary-varied", varied))
     nrun = 0
     distinct = {}
     model_checked = 0
@@ -123,9 +143,13 @@ def run(res):
                 args, files = ["info", "-i", rpu_bin, "-f", "3"], []
             elif kind == "export":
                 args, files = ["export", "-i", rpu_bin, "-d", "all=%s" % o("all.json"), "-d", "scenes=%s" % o("scenes.txt"), "-d", "level5=%s" % o("l5.json")], [o("all.json"), o("scenes.txt"), o("l5.json")]
+            elif kind == "export-varied":
+                args, files = ["export", "-i", arg, "-d", "all=%s" % o("all.json"), "-d", "scenes=%s" % o("scenes.txt"), "-d", "level5=%s" % o("l5.json")], [o("all.json"), o("scenes.txt"), o("l5.json")]
+            elif kind == "summary-varied":
+                args, files = ["info", "-i", arg, "-s"], []
             ec, txt = cli.run(args, cwd, env_extra=env)
             nrun += 1
-            sig = (ec, digest(files)) + ((hashlib.sha256(txt.split("Stack backtrace")[0].encode()).hexdigest()[:16],) if kind == "info" else ())
+            sig = (ec, digest(files)) + ((hashlib.sha256(txt.split("Stack backtrace")[0].encode()).hexdigest()[:16],) if kind in ("info", "summary-varied") else ())
             outs.add(sig)
             if first is None:
                 first = (args, files, ec)
